@@ -745,6 +745,16 @@ func judgeFidelity(r *Run, j *Judged, c *cls) {
 		if qualified[k] && len(got) == 0 {
 			continue // stripped because of no-cache="field"
 		}
+		if len(got) == 0 {
+			_, inB := c.B.Header[k]
+			inH := false
+			if c.H != nil {
+				_, inH = c.H.Header[k]
+			}
+			if !inB && !inH {
+				continue // only an intermediate 304 (possibly of a concurrent validation) carried it
+			}
+		}
 		okv := false
 		for _, w := range cands {
 			if reflect.DeepEqual(got, w) {
